@@ -198,6 +198,13 @@ func (e *Env) eval(x *Expr) TV {
 		var bound []*Term
 		var guards []*Term
 		for _, v := range x.Vars {
+			if v.Type == "Ref" {
+				e.fv.nfresh++
+				bv := BoundVar(fmt.Sprintf("%s!q%d", sanitize(v.Name), e.fv.nfresh), RefSort)
+				bound = append(bound, bv)
+				ne.vars[v.Name] = TV{Scalar{bv}, nil}
+				continue
+			}
 			t, err := e.fv.P.ResolveType(e.pkg, v.Type)
 			if err != nil {
 				e.fv.fail("%s: %v", x.Pos, err)
@@ -1015,8 +1022,10 @@ func (e *Env) evalLoc(x *Expr) []modLoc {
 		e.fv.side = nil
 		locs := e.evalLoc(x.Args[0])
 		for i := range locs {
-			if locs[i].kind != "cell" {
-				e.fv.fail("%s: guarded modifies is supported for field locations only", x.Pos)
+			switch locs[i].kind {
+			case "cell", "fields", "mem":
+			default:
+				e.fv.fail("%s: guarded modifies is supported for field, struct and mem locations only", x.Pos)
 			}
 			locs[i].guard = g
 		}
@@ -1099,6 +1108,22 @@ func (e *Env) evalLoc(x *Expr) []modLoc {
 // havoc overwrites the given locations with fresh values.
 func (fv *FV) havoc(st *State, locs []modLoc, tag string) {
 	for _, m := range locs {
+		if m.guard != nil && (m.kind == "fields" || m.kind == "mem") {
+			before := st.heap.clone()
+			g := m.guard
+			m.guard = nil
+			fv.havoc(st, []modLoc{m}, tag)
+			for k, nv := range st.heap.arrays {
+				ov, ok := before.arrays[k]
+				if !ok {
+					ov = before.initial(k)
+				}
+				if ov != nil && ov != nv {
+					st.heap.arrays[k] = Ite(g, nv, ov)
+				}
+			}
+			continue
+		}
 		switch m.kind {
 		case "cell":
 			if m.guard != nil {
